@@ -72,6 +72,20 @@ theorem C17_repairs_are_code :
 theorem C17_defects_are_code :
     Gen.ExecTask.killChecksRpcNil = false ∧ Gen.ExecTask.basicKillSignals = false := by decide
 
+/-- prepareTaskCmd makes every child the leader of a process group of its own, whatever the shape of the
+    command (through a shell or exec'd directly, with or without arguments): `Setpgid` is the constant `true` in
+    the source. Every termination site addresses the task by that group (-pid) or by the device's own pid; the
+    model's operating-system facts are about that group. A change that makes the group depend on the command
+    flips the fact and breaks this theorem (and the correspondence on the commands that lose their group). -/
+theorem C17_own_group_is_code (shp : Shape) : ownGroup shp = Gen.ExecTask.setpgidUnconditional := by
+  cases shp <;> decide
+
+/-- The command shape has no influence on what the executor does with the task: same kind, behaviour and
+    schedule, same observation — for every configuration, all kinds, behaviours, schedules and shapes. (The
+    model does not look at the shape; the correspondence run holds the real executor to this for every shape.) -/
+theorem C17_shape_irrelevant (c : Cfg) (k : Kind) (b : Beh) (ops : List Op) (x y : Shape) :
+    (runIn c k b x ops).obs = (runIn c k b y ops).obs := rfl
+
 /-- Escalation after DONE, for every device behaviour: the signals sent are a prefix of TERM, INT, KILL,
     the child is gone afterwards, and with the code's timeouts it takes at most DONE+TERM+INT = 6 s. -/
 theorem C17_escalation_bounded (b : Beh) :
@@ -324,6 +338,56 @@ theorem C17_finding_ctl_kill_spares_helpers : ¬ C17_no_survivors_full codeCfg :
   have := h .ctl .occfork [.kill]
   revert this; decide
 
+/-! ## stopping a basic task terminates its process group -/
+
+/-- FULL-STRENGTH (false of the code: `C17_finding_basic_stop_spares_helpers`): once a STOP of a basic task has
+    been answered and no child was started after it, no process of the task is alive. -/
+def C17_stop_terminates_full (c : Cfg) : Prop :=
+  ∀ (k : Kind) (b : Beh) (ops : List Op), stopTerminates k ops (run c k b ops).obs = true
+
+/-- What IS proved, for every configuration with the repaired ensureBasicTaskKilled, all kinds, behaviours and
+    schedules: a STOP leaves nothing of the task alive (and no later request but a START brings anything back),
+    provided no STOP reaches the task while it has processes outside the group of a running latest child —
+    children orphaned by a restart, helpers of earlier children, helpers of a child that already ended. -/
+theorem C17_stop_terminates_partial (c : Cfg) (hc : c.stopNilSafe = true) (k : Kind) (b : Beh) (ops : List Op)
+    (hn : never c stopSpares k b ops = true) :
+    stopTerminates k ops (run c k b ops).obs = true := by
+  cases k
+  case basic =>
+    have hh : (init c .basic b).2.halts = false := by simp [init, Res.halts]
+    rw [run_of_not_halts c .basic b ops hh]
+    simp only [never, hh, Bool.false_eq_true, ↓reduceIte] at hn
+    have := runFrom_stopped c hc (init c .basic b).1 (init_kind c .basic b) (init_proc c .basic b) false
+      (by simp) ops hn
+    simp only [stopTerminates, stoppedLast, Outcome.obs, this.1, Bool.false_eq_true, ↓reduceIte]
+    cases hs : stoppedFrom false ops (runFrom c (init c .basic b).1 ops).res
+    · simp
+    · simp [this.2 hs]
+  all_goals simp [stopTerminates]
+
+/-- **For the code as it is.** -/
+theorem C17_stop_terminates_code (k : Kind) (b : Beh) (ops : List Op)
+    (hn : never codeCfg stopSpares k b ops = true) :
+    stopTerminates k ops (run codeCfg k b ops).obs = true :=
+  C17_stop_terminates_partial codeCfg rfl k b ops hn
+
+/-- Finding (OPEN, true of the code as it is): STOP of a basic task kills the group of the latest child only, and
+    only while that child has not been reaped — the helper a child left behind when it ended on its own survives
+    the STOP (ensureBasicTaskKilled: ProcessState != nil, "nothing to do"), and so do a child orphaned by a second
+    START and its helpers. -/
+theorem C17_finding_basic_stop_spares_helpers : ¬ C17_stop_terminates_full codeCfg := by
+  intro h
+  have := h .basic .fork [.start, .await, .stop]
+  revert this; decide
+
+/-- The other two shapes of the same class: a restart orphans the first child; the helper of an earlier child. -/
+example :
+    stopTerminates .basic [.start, .start, .stop] (run codeCfg .basic .ok [.start, .start, .stop]).obs = false ∧
+    stopTerminates .basic [.start, .await, .start, .stop]
+      (run codeCfg .basic .fork [.start, .await, .start, .stop]).obs = false ∧
+    never codeCfg stopSpares .basic .ok [.start, .start, .stop] = false ∧
+    never codeCfg stopSpares .basic .fork [.start, .await, .start, .stop] = false := by decide
+
 /-! ## the whole property -/
 
 /-- Every conjunct of the property at once, for every schedule that stays clear of the classes of the
@@ -353,6 +417,15 @@ theorem C17_spec_code (k : Kind) (b : Beh) (ops : List Op)
   exact C17_spec_partial codeCfg k b ops (C17_unsafe_code.2 k b) (by rw [hu]; exact h1)
     (never_of_false codeCfg _ (by intro s op; simp [killArmedIn, codeCfg]) k b ops) h3 h4
 
+/-- **The whole property including "stopping a basic task terminates the whole process group", for the code as
+    it is**: `SpecAll` for every kind, behaviour, schedule — and, the model being blind to it, every command shape —
+    that stays clear of the four request states of the open findings. -/
+theorem C17_spec_all_code (k : Kind) (b : Beh) (shp : Shape) (ops : List Op)
+    (h1 : never codeCfg killNoRpc k b ops = true) (h3 : never codeCfg killLive k b ops = true)
+    (h4 : never codeCfg killHelpers k b ops = true) (h5 : never codeCfg stopSpares k b ops = true) :
+    SpecAll k ops (runIn codeCfg k b shp ops).obs = true := by
+  simp only [SpecAll, runIn, C17_spec_code k b ops h1 h3 h4, C17_stop_terminates_code k b ops h5, Bool.and_self]
+
 /-- Non-vacuity: realistic schedules meet the hypotheses of `C17_spec_code` — among them the ones that used to
     be excluded: STOP of a running basic task, two STOPs after a child that died of a signal, KILL before the
     TASK_RUNNING timer, a repeated KILL, a launch without data, a command that cannot be started. -/
@@ -367,6 +440,18 @@ example :
     ok .ctl .occstay [.conf, .start, .kill, .kill] = true ∧
     ok .ctl .occign [.kill] = true ∧
     ok .hook .fail [.tick, .trigger, .await, .trigger, .await, .kill] = true := by decide
+
+/-- Non-vacuity of `C17_spec_all_code` / `C17_stop_terminates_code`: schedules in which a STOP really has
+    something to terminate meet the hypothesis, and the clause is not trivially true on them (a STOP was answered,
+    nothing was started after it). -/
+example :
+    let ok (b : Beh) (ops : List Op) : Bool :=
+      never codeCfg stopSpares .basic b ops && stoppedLast ops (run codeCfg .basic b ops).res
+    ok .ok [.tick, .start, .stop] = true ∧
+    ok .fork [.start, .stop, .conf, .tick] = true ∧
+    ok .ok [.start, .stop, .start, .await, .stop, .kill] = true ∧
+    ok .sig [.start, .await, .stop, .stop] = true ∧
+    ok .nobin [.start, .stop] = true := by decide
 
 /-- The same schedules under the code as it was: each of the formerly excluded ones breaks the property. -/
 example :
